@@ -922,5 +922,13 @@ V('C17', 'mixin-sorts-the-channel-list-in-place', 'fire', 'C17.R9', 'the channel
   ('src/pyhf/mixins.py', "        for channel in channels:\n            self._channels.append(channel['name'])", "        channels.sort(key=lambda channel: channel['name'])\n        for channel in channels:\n            self._channels.append(channel['name'])"))
 V('C17', 'mixin-iterates-a-sorted-copy', 'silent', '', 'the channel summary iterates a sorted COPY of the channel list',
   ('src/pyhf/mixins.py', "        for channel in channels:\n            self._channels.append(channel['name'])", "        for channel in sorted(channels, key=lambda channel: channel['name']):\n            self._channels.append(channel['name'])"))
+V('C14', 'toy-distributions-kept-per-model-and-point', 'fire', 'C14.R5', 'toy distributions kept per (model, tested value, statistic, number of toys): the data are not part of the key',
+  ('src/pyhf/infer/__init__.py', 'from pyhf import exceptions\n', 'from pyhf import exceptions\nfrom weakref import WeakKeyDictionary\n\n_toy_distributions = WeakKeyDictionary()\n'),
+  ('src/pyhf/infer/__init__.py', '    sig_plus_bkg_distribution, bkg_only_distribution = calc.distributions(poi_test)\n', "    if calctype == 'toybased':\n        _sampled = _toy_distributions.setdefault(pdf, {})\n        _point = (float(poi_test), calc.test_stat, calc.ntoys)\n        if _point not in _sampled:\n            _sampled[_point] = calc.distributions(poi_test)\n        sig_plus_bkg_distribution, bkg_only_distribution = _sampled[_point]\n    else:\n        sig_plus_bkg_distribution, bkg_only_distribution = calc.distributions(poi_test)\n"))
+V('C08', 'toy-distributions-kept-per-model-and-point', 'fire', 'C08.R6', 'toy distributions kept per (model, tested value, statistic, number of toys): the data are not part of the key',
+  ('src/pyhf/infer/__init__.py', 'from pyhf import exceptions\n', 'from pyhf import exceptions\nfrom weakref import WeakKeyDictionary\n\n_toy_distributions = WeakKeyDictionary()\n'),
+  ('src/pyhf/infer/__init__.py', '    sig_plus_bkg_distribution, bkg_only_distribution = calc.distributions(poi_test)\n', "    if calctype == 'toybased':\n        _sampled = _toy_distributions.setdefault(pdf, {})\n        _point = (float(poi_test), calc.test_stat, calc.ntoys)\n        if _point not in _sampled:\n            _sampled[_point] = calc.distributions(poi_test)\n        sig_plus_bkg_distribution, bkg_only_distribution = _sampled[_point]\n    else:\n        sig_plus_bkg_distribution, bkg_only_distribution = calc.distributions(poi_test)\n"))
+V('C14', 'toy-distributions-through-a-local-helper', 'silent', '', 'the toy distributions fetched through a local closure (no memo)',
+  ('src/pyhf/infer/__init__.py', '    sig_plus_bkg_distribution, bkg_only_distribution = calc.distributions(poi_test)\n', '    def _distributions():\n        return calc.distributions(poi_test)\n\n    sig_plus_bkg_distribution, bkg_only_distribution = _distributions()\n'))
 V("C13", "code4-exponent-mask-strict", "fire", "C13.R3", "code 4 takes exponent 1 (a constant) exactly at |alpha| = alpha0",
   ("src/pyhf/interpolators/code4.py", "            exponents >= self.__alpha0, exponents, self.ones", "            exponents > self.__alpha0, exponents, self.ones"))
